@@ -89,6 +89,91 @@ class RawH2Peer:
         return b""
 
 
+class RawH2SharedPeer(RawH2Peer):
+    """For TWO callers multiplexed on the connection: the first two frames of the blob (SETTINGS, ACK) are
+    sent as soon as the client has spoken, the rest once both requests are complete; then it closes."""
+
+    def __init__(self, blob):
+        super().__init__(blob)
+        offs = frame_offsets(blob)
+        cut = offs[1] if len(offs) >= 2 else len(blob)
+        self.first, self.rest = blob[:cut], blob[cut:]
+        # (a SETTINGS frame that allows concurrent streams: the client keeps to ONE stream until it is told)
+        import hyperframe.frame as hf
+
+        f = hf.SettingsFrame(0)
+        f.settings = {hf.SettingsFrame.MAX_CONCURRENT_STREAMS: 100}
+        a = hf.SettingsFrame(0)
+        a.flags.add("ACK")
+        self.first = f.serialize() + a.serialize()
+        self.greeted = False
+
+    def feed(self, data):
+        self.dec.feed(data)
+        out = b""
+        if not self.greeted and self.dec.preface:
+            self.greeted = True
+            out += self.first
+        if len(self.dec.ended) >= 2 and not self.sent:
+            self.sent = True
+            self.closed = True
+            out += self.rest
+        return out
+
+
+def run_h2_shared(blob):
+    """-> [outcome of caller 1, outcome of caller 2]: two concurrent requests on ONE HTTP/2 connection of the
+    async pool; the peer's (malformed) answer arrives when both are under way, so whichever of them reads it,
+    the OTHER one meets the broken connection afterwards."""
+    from .simnet import AsyncSimBackend
+    from .vloop import VLoop
+
+    loop = VLoop()
+    loop.enter()
+    made = []
+
+    def factory(rec):
+        # (a request that the broken connection REFUSED - GOAWAY below its stream id - is re-sent on a new
+        #  connection: that one is served by a well-behaved server)
+        from .peers import H2ServerPeer
+
+        made.append(1)
+        return RawH2SharedPeer(blob) if len(made) == 1 else H2ServerPeer()
+
+    net = SimNet(World(default=factory), current_task=lambda: "r1")
+    pool = httpcore.AsyncConnectionPool(network_backend=AsyncSimBackend(net), http1=False, http2=True, max_connections=2)
+    outs = [None, None]
+
+    async def one(i):
+        try:
+            resp = await pool.request("GET", "http://origin.test/%d" % i, headers=[(b"Host", b"origin.test")])
+            outs[i] = {"cls": "ok", "mod": "", "hang": False, "status": resp.status}
+        except BaseException as e:  # noqa
+            if outs[i] is None:
+                outs[i] = {"cls": type(e).__name__, "mod": type(e).__module__.split(".")[0], "hang": False, "msg": str(e)[:80]}
+
+    ts = [loop.create_task(one(0)), loop.create_task(one(1))]
+    for _ in range(20000):
+        while loop.step() is not False:
+            pass
+        if all(t.done() for t in ts):
+            break
+        ready = [op for op in net.pending if op.fut is not None and not op.fut.done() and net.ready(op)]
+        if not ready:
+            break
+        op = ready[0]
+        res = net.resolve(op)
+        (op.fut.set_result if res[0] == "ok" else op.fut.set_exception)(res[1])
+    for i, t in enumerate(ts):
+        if not t.done():
+            outs[i] = {"cls": "hang", "mod": "", "hang": True}
+            t.cancel()
+    while loop.step() is not False:
+        pass
+    loop.shutdown()
+    return outs
+
+
 def frame_offsets(blob):
     out = []
     pos = 0
@@ -395,6 +480,11 @@ def run(prop, tier):
         add("h11-head" if m[:20] != base[:20] else "h11-body", "mutated", run_h11(m), repr(m[:80]))
     for stage, cause, blob in h2_scratch():
         add(stage, cause, run_h2(blob), repr(blob[:40]))
+        if stage in ("h2-frames", "h2-hpack", "h2-status") and cause in ("malformed", "eof"):
+            # the same answer while TWO callers share the connection: whoever reads it, the other one meets
+            # the broken connection afterwards - both outcomes are judged (stage h2-shared)
+            for k, o in enumerate(run_h2_shared(blob)):
+                add("h2-shared", "malformed", o, f"two callers, caller {k + 1}: " + repr(blob[:40]))
         # the same bytes delivered frame by frame: the error may then surface while the BODY is read
         add(stage, cause, run_h2(blob, frame_cuts=True), "frame by frame: " + repr(blob[:40]))
     vb = valid_h2_blob()
